@@ -30,10 +30,14 @@ Fail(rule, expected) ==
   /\ nbad' = nbad + 1 /\ NextCase
 
 \* the recorded call against the model's answer hh (state after the call) and result
-Diff(P, rec, hh, res) ==
+\* notes: the notifications the model expects from this call (a set of <<observer, variable, value>>)
+NotesOf(rec) == [i \in DOMAIN rec.notes |-> <<rec.notes[i].o, rec.notes[i].var, rec.notes[i].val>>]
+Diff(P, rec, hh, res, notes, full) ==
   LET seen == Host(P)!Seen(hh)
       badv == {v \in DOMAIN rec.seen.vars : v \in DOMAIN seen.vars /\ seen.vars[v] # rec.seen.vars[v]} IN
   IF res # rec.res THEN "result"
+  ELSE IF ~Host(P)!NotesOk(NotesOf(rec), notes) THEN "notifications"
+  ELSE IF ~full THEN ""
   ELSE IF seen.text # rec.seen.text THEN "text"
   ELSE IF seen.tags # rec.seen.tags THEN "tags"
   ELSE IF seen.can # rec.seen.can THEN "can"
@@ -59,11 +63,17 @@ Answer(P, op) ==
     [] op.op = "save" -> Host(P)!Save(h, op.slot)
     [] op.op = "load" -> Host(P)!Load(h, op.slot)
     [] op.op = "reset" -> Host(P)!Reset(h)
+    [] op.op = "observe" -> Host(P)!Observe(h, op.i, op.name)
+    [] op.op = "remove_observer" -> Host(P)!Unobserve(h, op.i, op.name)
 
-Done(P, rec, hh, res) ==
-  LET d == Diff(P, rec, hh, res) IN
-  IF d # "" THEN Fail("Host." \o d, Expected(P, hh, res))
+DoneN(P, rec, hh, res, notes, full) ==
+  LET d == Diff(P, rec, hh, res, notes, full) IN
+  IF d # "" THEN Fail("Host." \o d, [exp |-> Expected(P, hh, res), notes |-> notes])
   ELSE /\ h' = hh /\ oi' = oi + 1 /\ ph' = "op" /\ e' = <<>> /\ ev' = <<>> /\ UNCHANGED <<ci, steps, nbad>>
+Done(P, rec, hh, res) == DoneN(P, rec, hh, res, Host(P)!NoNotes, TRUE)
+
+\* calls that are refused while a time-limited continue is unfinished
+Guarded == {"choose_path", "switch_flow", "reset", "observe", "remove_observer", "eval_fn", "choose"}
 
 Play ==
   /\ ci <= Len(Cases)
@@ -74,15 +84,25 @@ Play ==
           [] ph = "op" ->
                IF oi > Len(c.ops) THEN NextCase /\ UNCHANGED nbad
                ELSE LET op == c.ops[oi] IN
-                    IF op.op = "cont"
-                    THEN IF ~Host(P)!CanContinue(h) THEN Done(P, op, h, "err")
+                    IF h.async /\ op.op \in Guarded
+                    THEN DoneN(P, op, h, "err", Host(P)!NoNotes, FALSE)       \* refused; what is "current" mid-line is not compared
+                    ELSE IF op.op = "cont_async" /\ ~op.finished
+                    THEN \* a slice that does not finish the line: nothing a host may rely on has changed
+                         IF ~h.async /\ ~Host(P)!CanContinue(h) THEN Done(P, op, h, "err")
+                         ELSE DoneN(P, op, [h EXCEPT !.async = TRUE], "ok", Host(P)!NoNotes, FALSE)
+                    ELSE IF op.op \in {"cont", "cont_async"}
+                    THEN IF ~h.async /\ ~Host(P)!CanContinue(h) THEN Done(P, op, h, "err")
                          ELSE /\ e' = Look(P)!BeginCont(Look(P)!Engine(h.m)) /\ ph' = "loop"
                               /\ UNCHANGED <<ci, h, oi, ev, steps, nbad>>
+                    ELSE IF op.op = "set_var"
+                    THEN LET a == Answer(P, op) IN DoneN(P, op, a.h, a.res, Host(P)!NotesAfterSet(h, op.name, op.value), TRUE)
                     ELSE IF op.op = "eval_fn"
                     THEN LET a == Host(P)!EvalBegin(h, op.name, op.args) IN
                          IF a.res = "err" THEN Done(P, op, h, "err")
                          ELSE /\ h' = a.h /\ ev' = [saved |-> a.saved, acc |-> <<>>] /\ ph' = "evalcont"
                               /\ UNCHANGED <<ci, oi, e, steps, nbad>>
+                    ELSE IF op.op = "reset"
+                    THEN LET a == Answer(P, op) IN DoneN(P, op, a.h, a.res, Host(P)!NotesAfterReset(h), TRUE)
                     ELSE LET a == Answer(P, op) IN Done(P, op, a.h, a.res)
           [] ph = "evalcont" ->
                \* the host continues the function until it cannot continue, then takes the result
@@ -105,7 +125,8 @@ Play ==
                LET r == Look(P)!SingleStep(e) IN
                IF Look(P)!LoopOver(r)
                THEN LET e1 == Look(P)!EndCont([m |-> r.m, snap |-> r.snap]) IN
-                    Done(P, c.ops[oi], [h EXCEPT !.m = e1.m], "ok")
+                    \* (the finishing slice of a sliced continue is the continue)
+                    DoneN(P, c.ops[oi], [h EXCEPT !.m = e1.m, !.async = FALSE], "ok", Host(P)!NotesAfterCont(h, e1.m), TRUE)
                ELSE /\ e' = [m |-> r.m, snap |-> r.snap] /\ steps' = steps + 1 /\ UNCHANGED <<ci, h, oi, ph, ev, nbad>>
 
 Finish ==
